@@ -10,6 +10,7 @@ import (
 	"verifharness/evid"
 	"verifharness/ircsim"
 
+	sasl "github.com/emersion/go-sasl"
 	"github.com/fluffle/goirc/client"
 	"pgregory.net/rapid"
 )
@@ -30,6 +31,9 @@ type c18Scenario struct {
 	Name        Q      `json:"name"`
 	Pass        Q      `json:"pass"`
 	CapNeg      bool   `json:"capneg"`
+	// WantCaps: the application has filled in Config.Capabilites (1) and/or Config.Sasl (2) - what is wanted
+	// - whether or not negotiation is enabled: CAP LS is sent only if it is
+	WantCaps int `json:"want_caps,omitempty"`
 	SSL         bool   `json:"ssl"`
 	Server      string `json:"server"`
 	PingFreqMS  int    `json:"ping_freq_ms"` // -1000, 0, 20, 180000
@@ -58,6 +62,7 @@ func genC18(t *rapid.T) *c18Scenario {
 		Ident:      rapid.SampledFrom([]string{"ident", "~u", "x"}).Draw(t, "ident"),
 		Name:       Q(rapid.SampledFrom([]string{"Real Name", "name: with colon", " lead", "x", ":colonfirst", "a  b"}).Draw(t, "name")),
 		CapNeg:     rapid.Bool().Draw(t, "capneg"),
+		WantCaps:   rapid.SampledFrom([]int{0, 0, 1, 2, 3}).Draw(t, "want_caps"),
 		SSL:        rapid.IntRange(0, 3).Draw(t, "ssl") == 0,
 		Server:     rapid.SampledFrom(c18Servers).Draw(t, "server"),
 		PingFreqMS: rapid.SampledFrom([]int{-1000, 0, 0, 20, 180000, 180000}).Draw(t, "pingfreq"),
@@ -146,6 +151,12 @@ func runC18(sc *c18Scenario) *Violation {
 		Configure: func(cfg *client.Config) {
 			cfg.Me.Ident, cfg.Me.Name = sc.Ident, string(sc.Name)
 			cfg.EnableCapabilityNegotiation = sc.CapNeg
+			if sc.WantCaps&1 != 0 {
+				cfg.Capabilites = []string{"multi-prefix", "away-notify"}
+			}
+			if sc.WantCaps&2 != 0 {
+				cfg.Sasl = sasl.NewPlainClient("", "user", "secret")
+			}
 			if sc.LateConfig && sc.LateWhat == "ssl" {
 				// Server is known from the start; whether to use TLS is decided (the other way round) later
 				cfg.Pass = string(sc.Pass)
@@ -197,7 +208,9 @@ func runC18(sc *c18Scenario) *Violation {
 		conn := tc.conn()
 		// registration prefix
 		var want []string
-		if sc.CapNeg {
+		// (Client() switches negotiation on when a SASL mechanism is configured: "required for SASL")
+		capneg := sc.CapNeg || sc.WantCaps&2 != 0
+		if capneg {
 			want = append(want, "CAP LS")
 		}
 		if sc.Pass != "" {
@@ -221,7 +234,7 @@ func runC18(sc *c18Scenario) *Violation {
 		if strings.Join(reg, "\n") != strings.Join(want, "\n") {
 			return violationf("C18", "cycle %d: registration lines %q, want %q", cycle, reg, want)
 		}
-		if sc.CapNeg {
+		if capneg {
 			conn.SendLine(":irc.server CAP * LS :multi-prefix sasl server-time")
 			if !tc.syncOut(stallTimeout()) {
 				return violationf("C18", "cycle %d: no answer after CAP LS reply", cycle)
@@ -411,7 +424,7 @@ func (sc *c18Scenario) classes() (cls []string, nontrivial bool) {
 	if sc.Backlog > 0 {
 		cls = append(cls, "pings_behind_backlog")
 	}
-	cls = append(cls, fmt.Sprintf("pingfreq=%d", sc.PingFreqMS), fmt.Sprintf("ssl=%v", sc.SSL), fmt.Sprintf("capneg=%v", sc.CapNeg), fmt.Sprintf("pass=%v", sc.Pass != ""))
+	cls = append(cls, fmt.Sprintf("pingfreq=%d", sc.PingFreqMS), fmt.Sprintf("ssl=%v", sc.SSL), fmt.Sprintf("capneg=%v", sc.CapNeg), fmt.Sprintf("caps_wanted=%v", sc.WantCaps != 0), fmt.Sprintf("pass=%v", sc.Pass != ""))
 	return uniqStrings(cls), nontrivial
 }
 
